@@ -704,7 +704,10 @@ impl<Tz: TimeZone> DateTime<Tz> {
     /// ```
     #[must_use]
     pub fn with_time(&self, time: NaiveTime) -> LocalResult<Self> {
-        self.timezone().from_local_datetime(&self.overflowing_naive_local().date().and_time(time))
+        let local = self.overflowing_naive_local().date().and_time(time);
+        self.timezone().from_local_datetime(&local).and_then(|dt| {
+            Some(dt).filter(|dt| dt >= &DateTime::<Utc>::MIN_UTC && dt <= &DateTime::<Utc>::MAX_UTC)
+        })
     }
 
     /// The minimum possible `DateTime<Utc>`.
